@@ -406,6 +406,27 @@ def exec_step(step, sess, chains, audit):
             obs['constructed'] = False
             obs['construct_exc'] = f'{type(e).__name__}: {e}'[:300]
             helper = None
+        if helper is not None and step.get('decoy'):
+            # before the helper is evaluated, ANOTHER helper of the same class with other parameter values is built (and a fresh real chain):
+            # instances of one task class do not share their parameter values
+            def _other(v_):
+                if isinstance(v_, bool):
+                    return not v_
+                if isinstance(v_, (int, float)):
+                    return v_ + 1
+                if isinstance(v_, str):
+                    return v_ + '_decoy'
+                if isinstance(v_, list):
+                    return v_ + ['decoy']
+                return v_
+            try:
+                decoy = create_test_task(cls, input_tasks=mocks, parameters={k_: _other(v_) for k_, v_ in params.items()},
+                                         base_dir=Path(_tf.mkdtemp(prefix='decoy-', dir=sess['lab_root'])))
+                obs['decoy_built'] = True
+            except Exception as e:
+                obs['decoy_built'] = False       # (e.g. a dtype no longer fits: not judged)
+            if step['decoy'] == 'and_real_chain':
+                make_config(real_chain_root, sess).chain() if (real_chain_root := step.get('real_root')) else None
         if helper is not None:
             try:
                 hv = helper.value
@@ -425,6 +446,19 @@ def exec_step(step, sess, chains, audit):
             obs['helper_base'] = str(helper.get_config().base_dir)
             obs['helper_files'] = sorted(str(p.relative_to(helper.get_config().base_dir)) for p in Path(helper.get_config().base_dir).rglob('*') if p.is_file()) \
                 if Path(helper.get_config().base_dir).exists() else []
+        if helper is not None and step.get('drop_chain') and step.get('use_test_chain') and 'helper_exc' not in obs and obs.get('constructed'):
+            # the TestChain object goes out of scope while its task object is still in use; the stored result is read again through the task
+            import gc as _gc
+            n_mid = len(rt.STATE['records'])
+            had_ = bool(helper.has_data)
+            tc = None
+            _gc.collect()
+            try:
+                v2_ = helper.reset_data().value
+                obs['after_drop'] = {'vdigest': rt.vdigest(v2_), 'had_data': had_,
+                                     'new_runs': len([x for x in rt.STATE['records'][n_mid:] if x['phase'] == 'start'])}
+            except Exception as e:
+                obs['after_drop'] = {'exc': f'{type(e).__name__}: {e}'[:300], 'had_data': had_}
         obs['helper_runs'] = rt.STATE['records'][n_before:]
     elif op == 'migrate':
         import contextlib
